@@ -31,6 +31,7 @@ pub(crate) mod verif_event {
         let mut f1 = ManuallyDrop::new(ev.wait());
         let mut f2 = ManuallyDrop::new(ev.wait());
         let mut is_set = init;
+        if (p & P18) != 0 { arm_alloc(); }
         let mut alive = [true; K];
         let mut pending = [false; K];
         let mut latched = [false; K]; // a set() happened since the first poll
@@ -117,6 +118,7 @@ pub(crate) mod verif_event {
                     i += 1;
                 }
             }
+            oracle!(p, P18, alloc_events() == 0, "C18 event: an operation allocated or freed heap memory");
             // ================= oracles after every operation =================
             oracle!(p, P14, ev.is_set() == is_set, "C14 event: is_set() differs from the last set/reset");
             let now = [c0a.n(), c0b.n(), c1a.n(), c1b.n(), c2a.n(), c2b.n()];
@@ -322,6 +324,18 @@ pub(crate) mod verif_event {
     #[cfg(kani)]
     mod proofs {
         use super::*;
+        #[kani::proof]
+        #[kani::unwind(3)]
+        fn repoll_panics() {
+            let ev = GenericManualResetEvent::<NoopLock>::new(true);
+            repoll_after_ready(ev.wait());
+        }
+        #[kani::proof]
+        #[kani::unwind(7)]
+        #[kani::stub(alloc::alloc::alloc, crate::verif::common::stub_alloc)]
+        #[kani::stub(alloc::alloc::dealloc, crate::verif::common::stub_dealloc)]
+        #[kani::stub(alloc::alloc::realloc, crate::verif::common::stub_realloc)]
+        fn hist_c18_n5() { let _ = hist::<NoopLock, _>(&mut KaniSrc, 2, 5, P18); }
         macro_rules! hist_proof {
             ($name:ident, $lock:ty, $n:expr, $p:expr, $unw:expr) => {
                 #[kani::proof]
